@@ -204,7 +204,8 @@ def step (d : DS) (line : String) : DS × List String :=
         let ρ := rhoOf d
         let extTab := d.ext
         let env : Env :=
-          { prog := PamsGen.Code.prog.filter (fun e => !(d.exclude.contains e.1)),
+          { mro := PamsGen.Code.mroOf,
+            prog := PamsGen.Code.prog.filter (fun e => !(d.exclude.contains e.1)),
             globals := fun x => (d.globals.find? (fun e => e.1 = x)).map (·.2),
             ext := fun st recv f as =>
               match extTab.find? (fun e => e.1 = callKey ρ recv f as) with
@@ -235,7 +236,12 @@ def step (d : DS) (line : String) : DS × List String :=
           let rets := (retObjs.zipIdx).flatMap (fun ai => retFields.map (fun f =>
             s!"RETF {ai.2} {f} " ++ (match st.heap ai.1 f with | some w => showVal ρ w | none => "-")))
           (d, [s!"RES OK {showVal ρ v}"] ++ flds ++ rets ++
-              [s!"CALLS {st.calls.length}" ++ String.join (st.calls.reverse.map (fun c => " " ++ c.fn)), "END"])
+              [s!"CALLS {st.calls.length}" ++ String.join (st.calls.reverse.map (fun c => " " ++ c.fn)),
+               -- the same calls with receiver and arguments: `fn|recv|arg|arg…`, blanks inside a value as `_`
+               s!"CARGS {st.calls.length}" ++ String.join (st.calls.reverse.map (fun c =>
+                 " " ++ c.fn ++ "|" ++ (showVal ρ c.recv).replace " " "_" ++
+                   String.join (c.args.map (fun a => "|" ++ (showVal ρ a).replace " " "_")))),
+               "END"])
         | .error e => (d, [s!"RES ERR {showErr e}", "END"])
   | _ => (d, [s!"E unknown line {line}"])
 
